@@ -87,6 +87,36 @@ class Closure:
         return f'Closure({self.fnode.name})'
 
 
+_TYPING_ORIGINS = {'Tuple': 'builtin:tuple', 'List': 'builtin:list', 'Sequence': 'builtin:list', 'Union': 'ext:typing.Union',
+                   'Optional': 'ext:typing.Union'}
+
+
+class TypingAlias(PyModel):
+    """typing.Tuple[X] / List[X] / Union[X, Y] / Optional[X]: origin and arguments, compared by value."""
+
+    def __init__(self, origin, args):
+        self.__origin__ = origin
+        flat = []
+        for a in args:
+            if isinstance(a, TypingAlias) and a.__origin__ == origin and origin == Ref('ext:typing.Union'):
+                flat.extend(a.__args__)       # Union[Union[a, b], c] is Union[a, b, c]
+            else:
+                flat.append(a)
+        self.__args__ = tuple(flat)
+
+    def __eq__(self, other):
+        return isinstance(other, TypingAlias) and other.__origin__ == self.__origin__ and other.__args__ == self.__args__
+
+    def __ne__(self, other):
+        return not self.__eq__(other)
+
+    def __hash__(self):
+        return hash(('TypingAlias', self.__origin__, self.__args__))
+
+    def __repr__(self):
+        return f'TypingAlias({self.__origin__}, {self.__args__})'
+
+
 class World:
     """State that outlives one interpreted call: module-level mutable objects, names rebound through `global`,
     class attributes assigned at run time. Rules that interpret two calls in a row hand the same World to both."""
@@ -471,35 +501,7 @@ class Interp:
                 if lazy is not None:
                     return self.ev(lazy)
             gref = self.a.res.resolve(n, self.m)
-            if gref in self.world.globals:
-                return self.world.globals[gref]
-            if gref and gref.startswith('ext:') and gref not in self.call_models:
-                try:
-                    return ext_constant(gref[4:])
-                except KeyError:
-                    pass
-            try:
-                val = self.a.folder.fold(n, self.m)
-            except Unfoldable:
-                if gref:
-                    return Ref(gref)
-                raise Unmodelled(f'unbound name {n.id}')
-            if isinstance(val, Ref) and val.ref.startswith('ext:') and '(' in val.ref and gref and gref.startswith('pkg:'):
-                gm_, gnode_ = self.a.res.lookup(gref)
-                if isinstance(gnode_, ast.Call):
-                    try:
-                        sub_ = Interp(self.a, gm_, {}, world=self.world)
-                        val2 = sub_.ev(gnode_)
-                        if isinstance(val2, _PURE_TYPES):
-                            self.world.globals[gref] = val2
-                            return val2
-                    except Unmodelled:
-                        pass
-            if isinstance(val, (dict, list, set)) and gref and gref.startswith('pkg:'):
-                # a module-level mutable object: one object per world, so that what one call stores the next one finds
-                self.world.globals[gref] = val
-                self._module_init(gref, val)
-            return val
+            return self._global(gref, n)
         if isinstance(n, ast.Attribute):
             if isinstance(n.value, ast.Name) and n.value.id in ('self', 'cls') \
                     and n.value.id not in self.env and self.self_class:
@@ -511,18 +513,11 @@ class Interp:
             if isinstance(root_, ast.Name) and root_.id not in self.env:
                 gref_ = self.a.res.resolve(n, self.m)
                 if gref_ and gref_.startswith('pkg:') and gref_.count(':') == 2 and '.' not in gref_.split(':', 2)[2]:
-                    if gref_ in self.world.globals:
-                        return self.world.globals[gref_]
                     gm_, gnode_ = self.a.res.lookup(gref_)
-                    if gnode_ is not None and not isinstance(gnode_, (ast.FunctionDef, ast.ClassDef)):
-                        try:
-                            gval_ = self.a.folder.fold(n, self.m)
-                        except Unfoldable:
-                            gval_ = None
-                        if isinstance(gval_, (dict, list, set)):
-                            self.world.globals[gref_] = gval_
-                            self._module_init(gref_, gval_)
-                            return gval_
+                    if gref_ in self.world.globals or (gnode_ is not None and not isinstance(gnode_, (ast.FunctionDef, ast.ClassDef))):
+                        return self._global(gref_, n)
+                if gref_ and gref_.startswith('ext:typing.') and gref_.rpartition('.')[2] in _TYPING_ORIGINS:
+                    return Ref(gref_)
             try:
                 base = self.ev(n.value)
             except Unmodelled:
@@ -638,6 +633,14 @@ class Interp:
                         return res
                     raise Unmodelled(f'slice of {base!r}')
                 return base[lo:hi:st]
+            if isinstance(base, Ref) and base.ref.startswith('ext:typing.') and base.ref.rpartition('.')[2] in _TYPING_ORIGINS:
+                short_ = base.ref.rpartition('.')[2]
+                elts_ = n.slice.elts if isinstance(n.slice, ast.Tuple) else [n.slice]
+                targs_ = [self.ev(e_) for e_ in elts_ if not (isinstance(e_, ast.Constant) and e_.value is Ellipsis)]
+                targs_ = [Ref('builtin:NoneType') if a_ is None else a_ for a_ in targs_]
+                if short_ == 'Optional':
+                    targs_.append(Ref('builtin:NoneType'))
+                return TypingAlias(Ref(_TYPING_ORIGINS[short_]), targs_)
             idx = self.ev(n.slice)
             if isinstance(base, Rec):
                 found, res = self._dunder(base, '__getitem__', idx)
@@ -921,6 +924,16 @@ class Interp:
                 if len(args) == 3:
                     return args[2]
                 raise ExcRaised(Ref('builtin:AttributeError'))
+            if isinstance(obj, Ref) and args[1].startswith('__') and args[1] not in ('__name__', '__doc__'):
+                # a class / NewType alias / function reference has none of the typing attributes (__origin__, __args__)
+                if len(args) == 3:
+                    return args[2]
+                raise ExcRaised(Ref('builtin:AttributeError'))
+            if _concrete(obj):
+                try:
+                    return getattr(obj, *args[1:])
+                except AttributeError:
+                    raise ExcRaised(Ref('builtin:AttributeError'))
             raise Unmodelled('getattr on a symbolic value')
         if isinstance(fn, ast.Name) and fn.id in ('filter', 'map') and fn.id not in self.env and len(args) == 2:
             seq = args[1]
@@ -949,6 +962,9 @@ class Interp:
                 if len(args) == 1:
                     return self._type_of(args[0])
                 raise Unmodelled('type() call')
+            if fn.id in ('sum', 'min', 'max', 'any', 'all', 'sorted') and args and isinstance(args[0], (list, tuple, set)) \
+                    and any(isinstance(x_, Rec) for x_ in args[0]):
+                return self._aggregate(fn.id, args, kwargs)
             if fn.id in _DUNDER_OF and args and isinstance(args[0], Rec) and isinstance(args[0].f.get('cls'), str):
                 found, res = self._builtin_on_rec(fn.id, args)
                 if found:
@@ -1732,3 +1748,98 @@ def ext_constant(dotted_name):
     except KeyError as exc:
         _EXT_CONST_CACHE[dotted_name] = exc
         raise
+
+
+def _global(self, gref, n):
+    """Value of a name that is not local: an object of the world, a module-level object of the package (folded or
+    interpreted in its own module), a library constant, or a symbolic reference."""
+    if gref in self.world.globals:
+        return self.world.globals[gref]
+    if gref and gref.startswith('ext:') and gref not in self.call_models:
+        try:
+            return ext_constant(gref[4:])
+        except KeyError:
+            pass
+    gm_, gnode_ = self.a.res.lookup(gref) if gref and gref.startswith('pkg:') else (None, None)
+    if isinstance(gnode_, ast.Call) and isinstance(gnode_.func, (ast.Name, ast.Attribute)):
+        cref_ = self.a.res.resolve(gnode_.func, gm_)
+        if cref_ and cref_.startswith('ext:') and cref_.split('.')[0][4:] not in _PURE_LIBS and cref_ not in self.call_models:
+            return Ref(gref)        # NAME = NewType(...), NAME = namedtuple(...): an opaque object known by its name
+    if isinstance(gnode_, ast.Subscript):
+        try:
+            val = Interp(self.a, gm_, {}, world=self.world, call_models=self.call_models).ev(gnode_)
+            if isinstance(val, TypingAlias):
+                self.world.globals[gref] = val
+                return val
+        except Unmodelled:
+            pass
+    try:
+        val = self.a.folder.fold(n, self.m)
+    except Unfoldable:
+        val = None
+        if isinstance(gnode_, (ast.Dict, ast.List, ast.Tuple, ast.Set)):
+            try:
+                val = Interp(self.a, gm_, {}, world=self.world, call_models=self.call_models).ev(gnode_)
+            except Unmodelled:
+                val = None
+        if val is None:
+            if gref:
+                return Ref(gref)
+            raise Unmodelled(f'unbound name {ast.unparse(n)}')
+    if isinstance(val, Ref) and val.ref.startswith('ext:') and '(' in val.ref and gref and gref.startswith('pkg:') \
+            and isinstance(gnode_, ast.Call):
+        try:
+            val2 = Interp(self.a, gm_, {}, world=self.world).ev(gnode_)
+            if isinstance(val2, _PURE_TYPES):
+                self.world.globals[gref] = val2
+                return val2
+        except Unmodelled:
+            pass
+    if isinstance(val, (dict, list, set)) and gref and gref.startswith('pkg:'):
+        # a module-level mutable object: one object per world, so that what one call stores the next one finds
+        self.world.globals[gref] = val
+        self._module_init(gref, val)
+    return val
+
+
+Interp._global = _global
+
+
+def _aggregate(self, name, args, kwargs):
+    """sum / min / max / any / all / sorted over a sequence that holds abstract instances: Python's own algorithm with the
+    arithmetic and comparisons of the instances' classes."""
+    seq = list(args[0])
+    if name in ('any', 'all'):
+        res = [self.truth(x) for x in seq]
+        return any(res) if name == 'any' else all(res)
+    if name == 'sum':
+        acc = args[1] if len(args) > 1 else kwargs.get('start', 0)
+        for x in seq:
+            acc = self._binop(ast.Add(), acc, x)
+        return acc
+    if kwargs.get('key') is not None:
+        raise Unmodelled(f'{name}() with a key function over abstract instances')
+    if name in ('min', 'max'):
+        if not seq:
+            if 'default' in kwargs:
+                return kwargs['default']
+            raise ExcRaised(Ref('builtin:ValueError'))
+        best = seq[0]
+        for x in seq[1:]:
+            if self.truth(self._compare(ast.Lt() if name == 'min' else ast.Gt(), x, best, None)):
+                best = x
+        return best
+    # sorted: insertion sort with <
+    out = []
+    for x in seq:
+        i = len(out)
+        while i > 0 and self.truth(self._compare(ast.Lt(), x, out[i - 1], None)):
+            i -= 1
+        out.insert(i, x)
+    if kwargs.get('reverse'):
+        out.reverse()
+    return out
+
+
+
+Interp._aggregate = _aggregate
